@@ -35,6 +35,11 @@ type witness struct {
 	Enable   []string    `json:"enable,omitempty"` // native overrides switched on for this harness
 	stubs    map[string]string
 	obstacle string // why this path cannot be run natively ("" = it can)
+	// concurrent: the symbolic path ran more than one goroutine. The native scheduler is not bound
+	// to the executor's schedule, so a native run of the same vector may legitimately take another
+	// interleaving (consume the nondeterministic inputs in another order, reach other assertions).
+	concurrent bool
+	cfg        harnessCfg
 	// outcome
 	Mode   string `json:"-"` // native | ssa-concrete
 	Result string `json:"-"` // agree | mismatch | error
@@ -75,7 +80,7 @@ func (e *Engine) witnessModels() []*witness {
 			e.note("witness: no model for a complete path (solver inconclusive); skipped")
 			return
 		}
-		out = append(out, &witness{Vector: vec, Asserts: append([]string{}, st.asserts...), Thorough: e.tierThorough, obstacle: obstacle})
+		out = append(out, &witness{Vector: vec, Asserts: append([]string{}, st.asserts...), Thorough: e.tierThorough, obstacle: obstacle, concurrent: len(st.threads) > 1})
 	}
 	for _, st := range e.witStates {
 		model(st, "")
@@ -96,6 +101,10 @@ type nativeWitnessOut struct {
 
 // validateWitnesses runs the sampled witnesses of all harnesses. Returns (native agreeing, ssa
 // agreeing, problems).
+// scheduleNotes: concurrent witnesses whose native run took another interleaving (reported in the
+// evidence, not a problem).
+var scheduleNotes []string
+
 func validateWitnesses(prog *ssa.Program, pkg *ssa.Package, results []*harnessResult, overlay, mutated map[string][]byte, known map[string]knownFinding, noNative bool) (int, int, []string) {
 	var problems []string
 	var native []*witness
@@ -112,7 +121,7 @@ func validateWitnesses(prog *ssa.Program, pkg *ssa.Package, results []*harnessRe
 		mode, why, enable := witnessMode(c)
 		r.WitnessNote = why
 		for _, w := range r.Witnesses {
-			w.Harness, w.Mode, w.Enable, w.stubs = c.Name, mode, enable, c.Overrides
+			w.Harness, w.Mode, w.Enable, w.stubs, w.cfg = c.Name, mode, enable, c.Overrides, c
 			if mode == "native" && !noNative && w.obstacle == "" {
 				native = append(native, w)
 				continue
@@ -158,6 +167,26 @@ func validateWitnesses(prog *ssa.Program, pkg *ssa.Package, results []*harnessRe
 			default:
 				w.Result = "agree"
 				nativeOK++
+			}
+			if w.Result != "agree" && w.concurrent {
+				// A concurrent path: the native run took (or may have taken) another interleaving.
+				// Decide the witness by deterministic re-execution of the same vector on the SSA
+				// under the executor's own scheduler; only a disagreement there is a problem.
+				nativeDetail := w.Detail
+				rr := runHarness(prog, pkg, w.cfg, w.Thorough, w.Vector)
+				switch {
+				case len(rr.Violations) > 0:
+					w.Result, w.Detail = "mismatch", "concrete re-execution violates: "+rr.Violations[0].Msg+" (native: "+nativeDetail+")"
+				case rr.Aborts > 0 || rr.Unknown > 0:
+					w.Result, w.Detail = "error", "concrete re-execution aborted: "+strings.Join(rr.Notes, "; ")+" (native: "+nativeDetail+")"
+				case rr.Finished == 0:
+					w.Result, w.Detail = "mismatch", "concrete re-execution does not reach the end of the harness (native: "+nativeDetail+")"
+				default:
+					w.Mode, w.Result = "ssa-concrete", "agree"
+					w.Detail = "native run took another interleaving (" + nativeDetail + "); agreed on deterministic SSA re-execution"
+					ssaOK++
+					scheduleNotes = append(scheduleNotes, fmt.Sprintf("harness=%s: %s", w.Harness, w.Detail))
+				}
 			}
 			if w.Result != "agree" {
 				vb, _ := json.Marshal(w.Vector)
